@@ -9,6 +9,9 @@
   * `frames`  remaining budgets of the enclosing `BoundedWriter`s, innermost first (one per table
               entry being written),
   * `cap`     storage of the underlying writer (`BufferWriter` family); `none` for stream / fd,
+  * `checked` whether every `Write` / `Skip` is checked against `cap` (Pedantic / Constexpr buffer
+              writers) or only `Prepare` is (`BufferWriter`: an over-long write is a memory error,
+              which shows in this model as `out` growing past `cap`),
   * `chan`    the out-of-band handle channel (`PushHandle` answers and log),
   * `fault`   fault-injection script for C10: the k-th call reaching the underlying writer fails.
 -/
@@ -19,6 +22,7 @@ structure Snk where
   out : Bytes := []
   frames : List Nat := []
   cap : Option Nat := none
+  checked : Bool := true
   chan : HChan := {}
   fault : Fault := .none
   deriving Inhabited
@@ -68,7 +72,8 @@ def wWrite (bs : Bytes) : MW Unit := fun s =>
   if !framesOk bs.length s.frames then (.error .writeLimitReached, s) else
   match s.pre with
   | (some e, s') => (.error e, s')
-  | (none, s') => if s'.room bs.length then (.ok (), s'.acc bs) else (.error .writeLimitReached, s')
+  | (none, s') =>
+    if !s'.checked || s'.room bs.length then (.ok (), s'.acc bs) else (.error .writeLimitReached, s')
 
 /-- `Writer::Skip(n, pad)` -/
 def wSkip (n : Nat) (pad : UInt8) : MW Unit := wWrite (List.replicate n pad)
